@@ -8,6 +8,7 @@ per access) is the symbolic input; CrossHair picks every schedule, the pipeline 
 path is one concrete run of the real code under one schedule chosen by the solver (fault-enumeration level, not a proof).
 Asserted: A's SQL text and arguments equal its single-threaded result and no exception appears that A would not get alone.
 """
+import threading
 from crosshair import realize, NoTracing
 from engine.ch import ok
 from pony.orm import core, ormtypes, asttranslation, decompiling
@@ -20,6 +21,8 @@ _state = {}
 class AdvDict(dict):
     adversary = None      # (schedule list, alt entries dict, log)
     start = 0             # index of the first access before which the adversary may act
+    other = None          # (query function, args) of the second thread for action 3
+    other_results = []
     def _adv(self, key):
         adv = AdvDict.adversary
         if adv is None: return
@@ -32,9 +35,31 @@ class AdvDict(dict):
         elif a == 2:
             alt = alts.get(id(self), {})
             if key in alt: dict.__setitem__(self, key, alt[key])
-    def get(self, key, default=None): self._adv(key); return dict.get(self, key, default)
+        elif a == 3:
+            self._second_thread(adv)
+
+    @staticmethod
+    def _second_thread(adv):
+        # a REAL second thread runs the same program location with its own values to completion right here (between two
+        # steps of the thread under test): it must get its own single-threaded result, whatever half-finished state it sees
+        AdvDict.adversary = None
+        box = []
+        th = threading.Thread(target=lambda: box.append(run_query(AdvDict.other[0], AdvDict.other[1])))
+        th.start(); th.join(30)
+        AdvDict.other_results.append(box[0] if box else ('error', 'thread did not finish', ''))
+        AdvDict.adversary = adv
+    def _after(self):
+        # action 4: the second thread runs right AFTER this access (e.g. after an entry was published but before the publisher
+        # finished initialising it in place)
+        adv = AdvDict.adversary
+        if adv is None: return
+        sched, alts, log = adv
+        k = len(log) - 1 - AdvDict.start
+        if 0 <= k < len(sched) and sched[k] == 4: self._second_thread(adv)
+    def get(self, key, default=None):
+        self._adv(key); r = dict.get(self, key, default); self._after(); return r
     def __getitem__(self, key): self._adv(key); return dict.__getitem__(self, key)
-    def __setitem__(self, key, val): self._adv(key); dict.__setitem__(self, key, val)
+    def __setitem__(self, key, val): self._adv(key); dict.__setitem__(self, key, val); self._after()
     def __delitem__(self, key): self._adv(key); dict.__delitem__(self, key)
     def __contains__(self, key): self._adv(key); return dict.__contains__(self, key)
     def pop(self, key, *default): self._adv(key); return dict.pop(self, key, *default)
@@ -115,16 +140,19 @@ def body(qi, sched):
     clear()
     alone = run_query(fn, ARGS_A)                 # A alone, cold caches
     clear()
-    run_query(fn, ARGS_B)                         # what the other thread legitimately leaves in the caches
+    alone_b = run_query(fn, ARGS_B)               # what the other thread legitimately leaves in the caches
     alts = snapshot()
+    AdvDict.other = (fn, ARGS_B)
     results = []
     for warm in (False, True):
         clear()
         if warm: run_query(fn, ARGS_A)            # A has run before (its own entries are cached), then the adversary interferes
         log = []
+        AdvDict.other_results = []
         AdvDict.adversary = (sched, alts, log)
         try: got = run_query(fn, ARGS_A)
         finally: AdvDict.adversary = None
+        if any(r != alone_b for r in AdvDict.other_results): got = ('other-thread-differs', AdvDict.other_results, alone_b)
         results.append((got, len(log)))
     clear()
     return alone, results
@@ -133,7 +161,7 @@ def body(qi, sched):
 def _harness(qi, a0, a1, a2, a3, a4, a5, start=0):
     AdvDict.start = start
     # explicit branching (one solver decision per comparison) turns every symbolic action into a concrete int
-    sched = [0 if a == 0 else (1 if a == 1 else 2) for a in (a0, a1, a2, a3, a4, a5)]
+    sched = [0 if a == 0 else (1 if a == 1 else (2 if a == 2 else (3 if a == 3 else 4))) for a in (a0, a1, a2, a3, a4, a5)]
     with NoTracing():
         alone, results = body(qi, sched)
     return all(got == alone for got, n in results)
@@ -141,7 +169,7 @@ def _harness(qi, a0, a1, a2, a3, a4, a5, start=0):
 
 def adversary_q0(a0: int, a1: int, a2: int, a3: int, a4: int, a5: int) -> bool:
     """
-    pre: 0 <= a0 <= 2 and 0 <= a1 <= 2 and 0 <= a2 <= 2 and 0 <= a3 <= 2 and 0 <= a4 <= LATE and 0 <= a5 <= LATE
+    pre: 0 <= a0 <= 4 and 0 <= a1 <= 4 and 0 <= a2 <= 4 and 0 <= a3 <= 4 and a4 == 0 and a5 == 0
     post: _
     """
     return ok(_harness(0, a0, a1, a2, a3, a4, a5))
@@ -149,7 +177,7 @@ def adversary_q0(a0: int, a1: int, a2: int, a3: int, a4: int, a5: int) -> bool:
 
 def adversary_q1(a0: int, a1: int, a2: int, a3: int, a4: int, a5: int) -> bool:
     """
-    pre: 0 <= a0 <= 2 and 0 <= a1 <= 2 and 0 <= a2 <= 2 and 0 <= a3 <= 2 and 0 <= a4 <= LATE and 0 <= a5 <= LATE
+    pre: 0 <= a0 <= 4 and 0 <= a1 <= 4 and 0 <= a2 <= 4 and 0 <= a3 <= 4 and a4 == 0 and a5 == 0
     post: _
     """
     return ok(_harness(1, a0, a1, a2, a3, a4, a5))
@@ -157,7 +185,7 @@ def adversary_q1(a0: int, a1: int, a2: int, a3: int, a4: int, a5: int) -> bool:
 
 def adversary_q2(a0: int, a1: int, a2: int, a3: int, a4: int, a5: int) -> bool:
     """
-    pre: 0 <= a0 <= 2 and 0 <= a1 <= 2 and 0 <= a2 <= 2 and 0 <= a3 <= 2 and 0 <= a4 <= LATE and 0 <= a5 <= LATE
+    pre: 0 <= a0 <= 4 and 0 <= a1 <= 4 and 0 <= a2 <= 4 and 0 <= a3 <= 4 and a4 == 0 and a5 == 0
     post: _
     """
     return ok(_harness(2, a0, a1, a2, a3, a4, a5))
@@ -165,7 +193,7 @@ def adversary_q2(a0: int, a1: int, a2: int, a3: int, a4: int, a5: int) -> bool:
 
 def adversary_q3(a0: int, a1: int, a2: int, a3: int, a4: int, a5: int) -> bool:
     """
-    pre: 0 <= a0 <= 2 and 0 <= a1 <= 2 and 0 <= a2 <= 2 and 0 <= a3 <= 2 and 0 <= a4 <= LATE and 0 <= a5 <= LATE
+    pre: 0 <= a0 <= 4 and 0 <= a1 <= 4 and 0 <= a2 <= 4 and 0 <= a3 <= 4 and a4 == 0 and a5 == 0
     post: _
     """
     return ok(_harness(3, a0, a1, a2, a3, a4, a5))
@@ -173,7 +201,7 @@ def adversary_q3(a0: int, a1: int, a2: int, a3: int, a4: int, a5: int) -> bool:
 
 def adversary_q4(a0: int, a1: int, a2: int, a3: int, a4: int, a5: int) -> bool:
     """
-    pre: 0 <= a0 <= 2 and 0 <= a1 <= 2 and 0 <= a2 <= 2 and 0 <= a3 <= 2 and 0 <= a4 <= LATE and 0 <= a5 <= LATE
+    pre: 0 <= a0 <= 4 and 0 <= a1 <= 4 and 0 <= a2 <= 4 and 0 <= a3 <= 4 and a4 == 0 and a5 == 0
     post: _
     """
     return ok(_harness(4, a0, a1, a2, a3, a4, a5))
@@ -181,7 +209,7 @@ def adversary_q4(a0: int, a1: int, a2: int, a3: int, a4: int, a5: int) -> bool:
 
 def adversary_q5(a0: int, a1: int, a2: int, a3: int, a4: int, a5: int) -> bool:
     """
-    pre: 0 <= a0 <= 2 and 0 <= a1 <= 2 and 0 <= a2 <= 2 and 0 <= a3 <= 2 and 0 <= a4 <= LATE and 0 <= a5 <= LATE
+    pre: 0 <= a0 <= 4 and 0 <= a1 <= 4 and 0 <= a2 <= 4 and 0 <= a3 <= 4 and a4 == 0 and a5 == 0
     post: _
     """
     return ok(_harness(5, a0, a1, a2, a3, a4, a5))
@@ -189,42 +217,42 @@ def adversary_q5(a0: int, a1: int, a2: int, a3: int, a4: int, a5: int) -> bool:
 
 def adversary_late_q0(a0: int, a1: int, a2: int, a3: int, a4: int, a5: int) -> bool:
     """
-    pre: 0 <= a0 <= 2 and 0 <= a1 <= 2 and 0 <= a2 <= 2 and 0 <= a3 <= 2 and 0 <= a4 <= LATE and 0 <= a5 <= LATE
+    pre: 0 <= a0 <= 4 and 0 <= a1 <= 4 and 0 <= a2 <= 4 and 0 <= a3 <= 4 and a4 == 0 and a5 == 0
     post: _
     """
-    return ok(_harness(0, a0, a1, a2, a3, a4, a5, start=6))
+    return ok(_harness(0, a0, a1, a2, a3, a4, a5, start=4))
 
 def adversary_late_q1(a0: int, a1: int, a2: int, a3: int, a4: int, a5: int) -> bool:
     """
-    pre: 0 <= a0 <= 2 and 0 <= a1 <= 2 and 0 <= a2 <= 2 and 0 <= a3 <= 2 and 0 <= a4 <= LATE and 0 <= a5 <= LATE
+    pre: 0 <= a0 <= 4 and 0 <= a1 <= 4 and 0 <= a2 <= 4 and 0 <= a3 <= 4 and a4 == 0 and a5 == 0
     post: _
     """
-    return ok(_harness(1, a0, a1, a2, a3, a4, a5, start=6))
+    return ok(_harness(1, a0, a1, a2, a3, a4, a5, start=4))
 
 def adversary_late_q2(a0: int, a1: int, a2: int, a3: int, a4: int, a5: int) -> bool:
     """
-    pre: 0 <= a0 <= 2 and 0 <= a1 <= 2 and 0 <= a2 <= 2 and 0 <= a3 <= 2 and 0 <= a4 <= LATE and 0 <= a5 <= LATE
+    pre: 0 <= a0 <= 4 and 0 <= a1 <= 4 and 0 <= a2 <= 4 and 0 <= a3 <= 4 and a4 == 0 and a5 == 0
     post: _
     """
-    return ok(_harness(2, a0, a1, a2, a3, a4, a5, start=6))
+    return ok(_harness(2, a0, a1, a2, a3, a4, a5, start=4))
 
 def adversary_late_q3(a0: int, a1: int, a2: int, a3: int, a4: int, a5: int) -> bool:
     """
-    pre: 0 <= a0 <= 2 and 0 <= a1 <= 2 and 0 <= a2 <= 2 and 0 <= a3 <= 2 and 0 <= a4 <= LATE and 0 <= a5 <= LATE
+    pre: 0 <= a0 <= 4 and 0 <= a1 <= 4 and 0 <= a2 <= 4 and 0 <= a3 <= 4 and a4 == 0 and a5 == 0
     post: _
     """
-    return ok(_harness(3, a0, a1, a2, a3, a4, a5, start=6))
+    return ok(_harness(3, a0, a1, a2, a3, a4, a5, start=4))
 
 def adversary_late_q4(a0: int, a1: int, a2: int, a3: int, a4: int, a5: int) -> bool:
     """
-    pre: 0 <= a0 <= 2 and 0 <= a1 <= 2 and 0 <= a2 <= 2 and 0 <= a3 <= 2 and 0 <= a4 <= LATE and 0 <= a5 <= LATE
+    pre: 0 <= a0 <= 4 and 0 <= a1 <= 4 and 0 <= a2 <= 4 and 0 <= a3 <= 4 and a4 == 0 and a5 == 0
     post: _
     """
-    return ok(_harness(4, a0, a1, a2, a3, a4, a5, start=6))
+    return ok(_harness(4, a0, a1, a2, a3, a4, a5, start=4))
 
 def adversary_late_q5(a0: int, a1: int, a2: int, a3: int, a4: int, a5: int) -> bool:
     """
-    pre: 0 <= a0 <= 2 and 0 <= a1 <= 2 and 0 <= a2 <= 2 and 0 <= a3 <= 2 and 0 <= a4 <= LATE and 0 <= a5 <= LATE
+    pre: 0 <= a0 <= 4 and 0 <= a1 <= 4 and 0 <= a2 <= 4 and 0 <= a3 <= 4 and a4 == 0 and a5 == 0
     post: _
     """
-    return ok(_harness(5, a0, a1, a2, a3, a4, a5, start=6))
+    return ok(_harness(5, a0, a1, a2, a3, a4, a5, start=4))
